@@ -51,10 +51,12 @@ pub struct EvidenceMeta<'a> {
     pub alphabet: J,
     pub swarm_runs: u64,
     pub f_groups: u64,
+    /// (chains, builder calls, built) of the single-precision builder probe
+    pub probe32: (u64, u64, u64),
 }
 
 pub fn evidence_json(st: &Stats, m: &EvidenceMeta) -> J {
-    let evaluations = st.runs + st.chains;
+    let evaluations = st.runs + st.chains + m.probe32.0;
     // distinct non-trivial cases: distinct fingerprints among executed runs in which a fault
     // actually fired or a builder call was actually rejected (a measured set), plus the
     // builder chains of the main exhaustive enumeration that were rejected or built (distinct by
@@ -84,7 +86,7 @@ pub fn evidence_json(st: &Stats, m: &EvidenceMeta) -> J {
         ("distinct_nontrivial", J::U(distinct)),
         (
             "rule",
-            J::s("evaluations = simulated runs executed through the replayable path (fault-grid reference and fault runs, swarm runs) + builder call chains enumerated by the fast path. A case is non-trivial if a planned derivative fault actually fired in it or a builder call was actually rejected / a complete configuration actually built. distinct_nontrivial = number of distinct 64-bit event-log fingerprints among the non-trivial executed runs (a measured set) + number of rejected-or-built chains of the main exhaustive enumeration (each (instantiation, call sequence) is visited exactly once by it, so they are distinct by construction; the chains of the deeper sub-alphabet enumerations, of the orders, subsets and insertions overlap with it and are not counted here)."),
+            J::s("evaluations = simulated runs executed through the replayable path (fault-grid reference and fault runs, swarm runs) + builder call chains enumerated by the fast path (double precision) + chains of the single-precision builder probe. A case is non-trivial if a planned derivative fault actually fired in it or a builder call was actually rejected / a complete configuration actually built. distinct_nontrivial = number of distinct 64-bit event-log fingerprints among the non-trivial executed runs (a measured set) + number of rejected-or-built chains of the main exhaustive enumeration (each (instantiation, call sequence) is visited exactly once by it, so they are distinct by construction; the chains of the deeper sub-alphabet enumerations, of the orders, subsets and insertions overlap with it and are not counted here)."),
         ),
         ("samples", J::A(samples)),
         ("exhaustive", J::Bool(false)),
@@ -174,6 +176,16 @@ pub fn evidence_json(st: &Stats, m: &EvidenceMeta) -> J {
                 ("builder_fields_seen_inverted_after_some_call", J::U(st.builder_inverted)),
                 ("solver_bounds_inverted_with_the_builders_in_order_not_judged", J::U(st.solver_inverted_only)),
                 ("chains_completed_with_canonical_values_and_built", J::U(st.chains_completed)),
+                (
+                    "single_precision_probe",
+                    J::obj(vec![
+                        ("instantiations", J::s("7 builders x {Const<1>, Dyn(2)} x {f32, Complex<f32>}")),
+                        ("chains", J::U(m.probe32.0)),
+                        ("builder_calls", J::U(m.probe32.1)),
+                        ("built", J::U(m.probe32.2)),
+                        ("note", J::s("builder contract only (chains of a few setters over a 22-symbol alphabet, completed with canonical values); no iteration, no fault half in single precision")),
+                    ]),
+                ),
                 ("euler_nonpositive_tolerance_accepted", J::U(st.euler_tol_nonpositive_ok)),
             ]),
         ),
